@@ -76,6 +76,7 @@ pub fn generate(tier: &str, seed: u64, out: &Path, nshards: usize, replay: Optio
         ("corr_paths", "fun c => corr_paths (c5_tg c)"),
         ("prop_source_roundtrip", "prop_source_roundtrip"),
         ("prop_one_item", "prop_one_item"),
+        ("known_F16", "known_F16"),
         ("hyp_all_cf", "hyp_all_cf"),
         ("hyp_some_cf_generic", "hyp_some_cf_generic"),
         ("hyp_gen_ok", "fun c => hyp_gen_ok (c5_tg c)"),
